@@ -273,3 +273,129 @@ def entry_fidelity(tree, ob, rel, qual):
     else:
         ob.violate(rel, qual, 'BytesIO({})'.format(text[:60]), 'the bundle queued for sending is not the byte array that was passed in (sliced, stripped or re-coded on entry): '
                    'every segment and the final length are then those of another bundle', c)
+
+
+
+def per_instance_state(tree, ob, rel, clsnames):
+    ''' queues, maps and sets of a session / agent object belong to that object.  A mutable container bound in the class
+    body is one object shared by every instance: two sessions of one agent then share a receive queue or a transfer map.
+    Each container the methods mutate through self must be created in __init__ (per instance); a class-level binding of
+    a list / dict / set that __init__ does not replace is reported. '''
+    MUT = ('append', 'add', 'pop', 'remove', 'discard', 'clear', 'update', 'extend', 'insert', 'setdefault', 'popitem')
+    n = 0
+    for cname in clsnames:
+        cls = tree.klass(rel, cname)
+        init = [m for m in cls.body if isinstance(m, ast.FunctionDef) and m.name == '__init__']
+        init_sets = set()
+        for m in init:
+            for x in ast.walk(m):
+                if isinstance(x, (ast.Assign, ast.AnnAssign)):
+                    for t in (x.targets if isinstance(x, ast.Assign) else [x.target]):
+                        if self_attr(t):
+                            init_sets.add(self_attr(t))
+        mutated = set()
+        for m in cls.body:
+            if not isinstance(m, ast.FunctionDef):
+                continue
+            for x in ast.walk(m):
+                if isinstance(x, ast.Call) and isinstance(x.func, ast.Attribute) and x.func.attr in MUT and self_attr(x.func.value):
+                    mutated.add(self_attr(x.func.value))
+                if isinstance(x, (ast.Assign, ast.AugAssign, ast.Delete)):
+                    for t in (x.targets if not isinstance(x, ast.AugAssign) else [x.target]):
+                        if isinstance(t, ast.Subscript) and self_attr(t.value):
+                            mutated.add(self_attr(t.value))
+        for item in cls.body:
+            if not isinstance(item, (ast.Assign, ast.AnnAssign)) or item.value is None:
+                continue
+            v = item.value
+            mutable = isinstance(v, (ast.List, ast.Dict, ast.Set, ast.ListComp, ast.DictComp, ast.SetComp)) or \
+                (isinstance(v, ast.Call) and (call_name(v) or '').split('.')[-1] in ('list', 'dict', 'set', 'deque', 'OrderedDict', 'defaultdict', 'bytearray'))
+            if not mutable:
+                continue
+            for t in (item.targets if isinstance(item, ast.Assign) else [item.target]):
+                if not isinstance(t, ast.Name):
+                    continue
+                n += 1
+                if t.id in mutated and t.id not in init_sets:
+                    ob.violate(rel, cname, '{} = {}  (class body)'.format(t.id, src(v)[:30]), 'the container {} is created once for the class and mutated through self: every {} object shares it, so what one '
+                               'session queues, maps or acknowledges shows up in (or is refused because of) another'.format(t.id, cname), item)
+                else:
+                    ob.site(rel, item, '{}.{}: class-level container not mutated through self'.format(cname, t.id))
+        for a in sorted(mutated):
+            if a in init_sets:
+                ob.site(rel, init[0] if init else cls, '{}.{} created per instance'.format(cname, a))
+    return n
+
+
+
+def _one_step(fv, expr, at):
+    ''' a name with a single reaching definition is read as that definition (one step, no further inlining) '''
+    if isinstance(expr, ast.Name):
+        rd = fv.reaching_defs(expr.id, at)
+        if len(rd) == 1 and rd[0][1] is not None and isinstance(rd[0][1], ast.AST):
+            return rd[0][1]
+    return expr
+
+
+def config_verbatim(tree, ob, rel):
+    ''' what the agent is configured with is what the file says: Config.from_file hands each value on as it was read.
+    A value rewritten on the way (an explicit 0 / false / '' taken for "unset", a number clamped, a default derived although
+    a value was given) silently changes a limit or a policy the properties are stated against. '''
+    fv = FuncView(tree, rel, 'Config.from_file')
+    func = fv.func
+    loops = [n for n in walk_local(func) if isinstance(n, ast.For) and pm('fields(self)', n.iter) is not None]
+    lp = one(loops, 'loop over the configuration fields in {} Config.from_file'.format(rel), ob)
+    fld = src(lp.target)
+    n = 0
+    for c in calls_in(func):
+        if (call_name(c) or '') != 'setattr' or len(c.args) != 3:
+            continue
+        n += 1
+        val = _one_step(fv, c.args[2], c)
+        got = pm('$d[{}.name]'.format(fld), val)
+        if src(c.args[0]) == 'self' and src(c.args[1]) == fld + '.name' and got is not None and isinstance(got['d'], ast.Name):
+            ob.site(rel, c, 'plain settings are taken over as read')
+        else:
+            ob.violate(rel, fv.qual, 'setattr(self, {}.name, {})'.format(fld, src(val)[:60]), 'a setting is not taken over as it was read from the file (an explicit false / 0 / empty value is replaced, '
+                       'or the value is rewritten): the agent runs under another policy or limit than the one configured', c)
+    for st in walk_local(func):
+        if not isinstance(st, (ast.Assign, ast.AugAssign)):
+            continue
+        for t in (st.targets if isinstance(st, ast.Assign) else [st.target]):
+            attr = self_attr(t)
+            if not attr:
+                continue
+            n += 1
+            v = st.value
+            if isinstance(st, ast.Assign) and ((isinstance(v, ast.List) and not v.elts) or (isinstance(v, ast.Dict) and not v.keys)):
+                ob.site(rel, st, '{} reset before it is filled from the file'.format(attr))
+            elif isinstance(st, ast.Assign) and fv.has(st, 'self.{} is None'.format(attr), True):
+                ob.site(rel, st, '{} derived only when it was not given (is None)'.format(attr))
+            elif isinstance(st, ast.Assign) and (fv.has(st, 'self.' + attr, False)):
+                ob.violate(rel, fv.qual, src(st)[:70] + '  under "not self.{}"'.format(attr), 'a default is derived for {0} whenever it is falsy: an explicitly configured 0 (= switched off) is replaced by '
+                           'the derived value'.format(attr), st)
+            else:
+                val = _one_step(fv, v, st)
+                if pm('$d[$k]', val) is not None and isinstance(pm('$d[$k]', val)['d'], ast.Name):
+                    ob.site(rel, st, '{} taken over as read'.format(attr))
+                elif isinstance(val, ast.Call) and not val.args and len(val.keywords) == 1 and val.keywords[0].arg is None and pm('$d[$k]', val.keywords[0].value) is not None \
+                        and (call_name(val) or '').endswith('Config'):
+                    ob.site(rel, st, '{}: structured setting built from the mapping as read'.format(attr))
+                else:
+                    ob.violate(rel, fv.qual, src(st)[:80], 'the setting {} is rewritten while it is loaded (clamped, converted or replaced): the agent runs with another value than the one configured'.format(attr), st)
+    ob.require(n >= 1, 'settings written by Config.from_file')
+
+
+
+def fresh_defaults(tree, ob, rels):
+    ''' a default argument is evaluated once, when the function is defined.  A container or object built there is shared by
+    every call that omits the argument: the "new" bundle of each BundleContainer() would be one and the same object. '''
+    n = 0
+    for rel in rels:
+        for (r, qual, func) in tree.all_functions([rel]):
+            for d in list(func.args.defaults) + [x for x in func.args.kw_defaults if x is not None]:
+                n += 1
+                if isinstance(d, (ast.Call, ast.List, ast.Dict, ast.Set, ast.ListComp, ast.DictComp, ast.SetComp)) and (call_name(d) or '') not in ('frozenset', 'tuple', 'field', 'dataclasses.field'):
+                    ob.violate(rel, qual, '{}(... = {})'.format(func.name, src(d)[:40]), 'the default argument is one object made when the function was defined and shared by every call: objects that '
+                               'should start empty (the bundle of a new container) accumulate what earlier uses put into them', d)
+    ob.site(rels[0], tree.module(rels[0]).tree, 'no default argument builds a shared mutable object ({} defaults in {} module(s))'.format(n, len(rels)))
